@@ -228,11 +228,11 @@ def h_acl(ctx):
     # members of referenced address groups
     for it in _flat(acl):
         if it.__class__.__name__ == "Ace":
-            for addr in (it.srcaddr, it.dstaddr):
+            for side, addr in (("src", it.srcaddr), ("dst", it.dstaddr)):
                 if addr.type == "addrgroup":
                     mem = w.group_members(addr.addrgroup)
                     from oracle.packet import addr_pred
-                    cl("group-members-kept", Xor_(in_nets(pkt.src, addr.ipnets()), Or_([addr_pred(pkt.src, v, m) for v, m in mem])))
+                    cl("group-members-kept:" + side, Xor_(in_nets(pkt.src, addr.ipnets()), Or_([addr_pred(pkt.src, v, m) for v, m in mem])))
     t1 = acl.line
     acl.platform = src
     acl.platform = dst
